@@ -55,9 +55,10 @@ def _knob(cid_seed, n):
 def vector_configs(tier, seed=1):
     """Configurations for engines that exercise vector code (mem, fenv)."""
     if tier == 'quick':
-        return [mk('g++', 'c++11', 'none'), mk('g++', 'c++11', 'SSE2'), mk('g++', 'c++17', 'SSE4_2'),
-                mk('g++', 'c++11', 'AVX2'), mk('g++', 'c++20', 'F_VL'), mk('g++', 'c++11', 'full'),
-                mk('clang++', 'c++14', 'AVX512F', finl=True)]
+        # one configuration per macro that selects many distinct preprocessor branches (SSE2, SSSE3, SSE4.1, AVX, AVX2, AVX-512 F / VL / BW / DQ)
+        return [mk('g++', 'c++11', 'none'), mk('g++', 'c++11', 'SSE2'), mk('g++', 'c++14', 'SSSE3', finl=True), mk('g++', 'c++17', 'SSE4_2'),
+                mk('clang++', 'c++17', 'AVX'), mk('g++', 'c++11', 'AVX2'), mk('clang++', 'c++14', 'AVX512F', finl=True),
+                mk('g++', 'c++20', 'F_VL'), mk('g++', 'c++14', 'F_BW'), mk('g++', 'c++11', 'full')]
     out = []
     stds = ['c++11', 'c++14', 'c++17', 'c++20']
     for cxx in ('g++', 'clang++'):
